@@ -47,6 +47,9 @@ type C08Sc struct {
 	Chunk       int            `json:"chunk,omitempty"`
 	Capacity    int            `json:"capacity,omitempty"`
 	HTTP        []HTTPReqSc    `json:"http,omitempty"` // exchanges through the HTTP handler, concurrent with the connections
+	// StalledShutdown: clients that stopped reading (or are stuck writing) stay connected while the server is
+	// shut down; Shutdown must still return (forced cancellation after the grace period) and nothing may remain
+	StalledShutdown bool `json:"stalled_shutdown,omitempty"`
 }
 
 var c08Outcomes = []string{"ok", "ok", "ok", "et", "ep", "pe", "ps", "pS", "pi", "pn", "y2,ok", "sl300,ok", "sL300,ok", "sl5000,ok", "sL5000,ok", "y3,et"}
@@ -145,6 +148,7 @@ func genC08(g *simrt.Tape, tier string) any {
 			sc.HTTP = append(sc.HTTP, genHTTPReq(g))
 		}
 	}
+	sc.StalledShutdown = g.Draw(4) == 0
 	return sc
 }
 
@@ -503,6 +507,29 @@ func execC08(x *X, scAny any) {
 		x.Reportf("C08.client-starves", rcKind(rc), "client %d is blocked at %s at quiescence with %d of %d responses received (server tasks alive: %v)", rc.idx, t.Site(), len(rc.got), len(rc.obl), taskList(w.serverTasksAlive()))
 		return
 	}
+	if sc.StalledShutdown {
+		// the stalled clients stay connected: the server must get rid of them by itself when it is shut down
+		s.Spawn("shutdown", func() { w.shutdown() })
+		s.Run()
+		x.CommonOracles("C08")
+		if len(s.Result().Panics) > 0 {
+			return
+		}
+		if !w.shutdownReturned || !w.serveReturned {
+			x.Reportf("C08.shutdown-hangs", "stalled-clients", "clients that stopped reading are still connected: Shutdown returned=%v Serve returned=%v (server tasks alive: %s)", w.shutdownReturned, w.serveReturned, taskList(w.serverTasksAlive()))
+			return
+		}
+		if alive := w.serverTasksAlive(); len(alive) > 0 {
+			sig, full := aliveSummary(alive)
+			x.Reportf("C08.goroutines-of-ended-connections", "after-shutdown:"+sig, "after Shutdown returned %d server goroutine(s) remain: %s", len(alive), full)
+		}
+		for _, rc := range clients {
+			if rc.conn != nil && !rc.conn.Closed() {
+				_ = rc.conn.Close()
+			}
+		}
+		return
+	}
 	// connections still open (clients that stopped reading or are stuck writing) are closed now
 	s.Spawn("closer", func() {
 		for _, rc := range clients {
@@ -608,6 +635,17 @@ func c08FaultFloor(tier string) []*C08Sc {
 		}
 		for pos := 0; pos < 120; pos += 3 {
 			out = append(out, &C08Sc{HTTP: []HTTPReqSc{{Req: ok2, Enc: enc, Mangle: "corrupt", Pos: pos, Val: 0x41 + pos%7}}, Clients: []RawClientSc{{Canary: true, Acts: c08BaseWorkload().Clients[1].Acts}}})
+		}
+	}
+	ok1 := &ReqSc{Version: 4, Items: []ItemSc{{Tok: "ok"}}}
+	for _, capy := range []int{0, 16, 64} {
+		for _, n := range []int{1, 3} {
+			acts := []ActSc{}
+			for i := 0; i < n; i++ {
+				acts = append(acts, ActSc{Kind: "send", Req: ok1})
+			}
+			acts = append(acts, ActSc{Kind: "stop"})
+			out = append(out, &C08Sc{StalledShutdown: true, Capacity: capy, Clients: []RawClientSc{{Acts: acts}, {Canary: true, Acts: c08BaseWorkload().Clients[1].Acts}}})
 		}
 	}
 	for _, p := range c08Presets {
